@@ -1148,6 +1148,9 @@ class SortValues(BaseSetIndexSortValues):
 
     @functools.cached_property
     def _meta(self):
+        if self.sort_function_kwargs.get("ignore_index"):
+            # the rows are labelled with their positions
+            return self.frame._meta.reset_index(drop=True)
         return self.frame._meta
 
     @functools.cached_property
@@ -1398,6 +1401,9 @@ class SortValuesBlockwise(Blockwise):
 
     @functools.cached_property
     def _meta(self):
+        if self.sort_kwargs.get("ignore_index"):
+            # the rows are labelled with their positions
+            return self.frame._meta.reset_index(drop=True)
         return self.frame._meta
 
     def _divisions(self):
